@@ -20,6 +20,8 @@ def install_all(reg):
     attractors.install_sets(reg)
     from . import candidates
     candidates.install(reg)
+    candidates.install_helpers(reg)
+    candidates.install_helpers2(reg)
     algorithms.install(reg)
     algorithms.install_skipnode(reg)
     algorithms.install_target(reg)
